@@ -29,6 +29,8 @@ def build_specs(prop, tier, nlines):
         specs += [(e2.sequential("NONE", 0), {}), (e2.sequential("NONE", 0, fail=True), {}),
                   (e2.sequential("NONE", 0), {"failed": True}), (e2.sequential("NONE", 0), {"done": True})]
         specs += jobdir.specs_concurrent()
+        pstep = 6 if tier == "quick" else 2
+        specs += [(e2.preempted(k), {}) for k in range(1 + s0 % pstep, nlines + 4, pstep)]
     else:  # C05: competing launches of the same job
         reps = 2 if tier == "quick" else 12
         for r in range(reps):
@@ -36,6 +38,10 @@ def build_specs(prop, tier, nlines):
         specs += [(e2.sequential("NONE", 0), {}), (e2.sequential("NONE", 0), {"done": True}), (e2.sequential("NONE", 0, fail=True), {})]
         for k in range(20 + s0 % 7, nlines, 17 if tier == "quick" else 5):
             specs.append((e2.sequential("KILL", k), {}))
+        # the first launch is preempted before its k-th statement while a second launch arrives
+        pstep = 4 if tier == "quick" else 1
+        specs += [(e2.preempted(k), {}) for k in range(1 + s0 % pstep, nlines + 4, pstep)]
+        specs += [(e2.preempted(k, fail=True), {}) for k in range(2 + s0 % pstep, nlines + 4, pstep * 4)]
     return specs
 
 
